@@ -1021,6 +1021,44 @@ impl<'a> World<'a> {
                 self.judge_set("json-path-filter", "parameter", &Val::S(ps.clone()), got, &exp, &none, None, &FilterCtx { literals_before: vec![] }, Some(&var), &q, o);
             }
         }
+        // ---- form F: the whole Json value through a selector (`sel: field->$`) ----
+        if ty == Ty::Json {
+            let has_default = matches!(self.plan.variant, Variant::Def | Variant::Late);
+            if has_default && self.case.avoid_known {
+                o.count("excluded:json-selector-on-field-with-default", 1);
+            } else {
+                let q = format!("query {{ T(order_by(tag asc)) {{ tag sel: {}->$ }} }}", field);
+                o.label("pos:json-selector");
+                match self.be.query(&q, &[]) {
+                    Err(Fail::Sqlite(m)) if has_default && sqlite_class(&m) == "sql-syntax" => {
+                        o.violation("json-selector-on-default-sql-syntax", format!("{} :: {}", clip(&m, 300), q));
+                    }
+                    Err(f) => o.violation(sig_for_fail("json-selector", &f), format!("{:?} :: {}", clip(&format!("{:?}", f), 300), q)),
+                    Ok(res) => {
+                        let arr = res.get("T").and_then(|t| t.as_arr()).cloned().unwrap_or_default();
+                        for g in &arr {
+                            let tag = g.get("tag").and_then(|t| t.as_str()).unwrap_or("?");
+                            if let Some(r) = self.rows.iter().find(|r| r.tag == tag) {
+                                if r.tainted {
+                                    continue;
+                                }
+                                let exp = self.effective(r);
+                                let gv = g.get("sel").cloned().unwrap_or(JOut::Null);
+                                if check_val(&exp, &gv) == Diff::Different {
+                                    o.violation(
+                                        "roundtrip-mismatch:Json:selector",
+                                        format!("row {} expected {} got {}", tag, clip(&format!("{:?}", exp), 200), gv.short()),
+                                    );
+                                }
+                            }
+                        }
+                        if arr.len() != self.rows.len() {
+                            o.violation("row-set-changed:json-selector", format!("{} rows for {} expected", arr.len(), self.rows.len()));
+                        }
+                    }
+                }
+            }
+        }
         for p in probes {
             // ---- `field = null` (literal only; a null parameter has no defined meaning with `=`) ----
             if p == Val::Null {
@@ -1050,10 +1088,15 @@ impl<'a> World<'a> {
             let got = self.run_tag_query(&q, &[(var.as_str(), to_param(&p))], "T");
             if json_mode {
                 if let Ok(g) = &got {
+                    let kind = match &p {
+                        Val::J(JVal::Arr(_)) | Val::J(JVal::Obj(_)) => "container",
+                        Val::J(JVal::Str(_)) => "string",
+                        _ => "number-or-boolean",
+                    };
                     if must_full.iter().all(|t| g.contains(t)) && !must_full.is_empty() {
-                        o.count("json_filter_param_matched_all", 1);
+                        o.count(&format!("json_filter_param_matched_all:{}", kind), 1);
                     } else if !must_full.is_empty() {
-                        o.count("json_filter_param_missed_some(textual comparison)", 1);
+                        o.count(&format!("json_filter_param_missed_some(textual comparison):{}", kind), 1);
                     }
                 }
             }
